@@ -5,12 +5,12 @@ package main
 // instruction-effect extractor (ix.go) and a few direct rules.
 
 import (
-	"os"
 	"fmt"
 	"go/ast"
 	"go/constant"
 	"go/token"
 	"go/types"
+	"os"
 	"strings"
 
 	"golang.org/x/tools/go/ssa"
